@@ -25,6 +25,16 @@ def label(x):
     return f"{x.get('kind', 'map')} {x.get('ptype', 'u8')} {x.get('universe', 'U2')}/{x.get('embed', 'hi')} {x.get('alpha', 'full')} reps={b(x.get('reps', False))} layout={b(x.get('layout', False))}"
 
 
+def is_heavy(r):
+    """runs that hold millions of states: executed in a process of their own"""
+    u = r.get("universe")
+    if r.get("engine") == "explore":
+        return (u in ("U3", "comb6") and r.get("alpha") != "canonical") or bool(r.get("layout")) or (u == "comb5" and r.get("alpha") == "full")
+    if r.get("engine") in ("pairs", "eqpairs", "selfpairs"):
+        return u in ("U3", "U3half") or bool(r.get("all_roots"))
+    return False
+
+
 def ex(kind, ptype, universe, embed, alpha, observers, **kw):
     d = {"engine": "explore", "kind": kind, "ptype": ptype, "universe": universe, "embed": embed, "alpha": alpha,
          "observers": observers, "threads": 1}
@@ -301,9 +311,9 @@ def guards(prop, tier, plan, runs):
             sp = r["spec"]
             if r["states"] < 2 or r["transitions"] < 1:
                 problems.append(f"vacuous exploration: {r['run']} has {r['states']} states")
-            if not r["exhaustive"] and not r.get("found"):
-                # a capped run is reported as such in the evidence; it is not an error
-                pass
+        if r.get("cap_hit") and "resident memory" in str(r.get("cap_hit")) and not r.get("found"):
+            # the memory cap is a property of the machine, not of the library: never a silent pass
+            problems.append(f"{r.get('run')}: {r['cap_hit']}")
     return problems
 
 
